@@ -59,7 +59,7 @@ class Features(dict):
         runahead=['P0', 'P1', 'P2', 'P3', 'P4', None],
         queues=False, sequential=False, families=False, xtriggers=False,
         clock_expire=False, hold_after=False, stop_after=False,
-        mixed_parent_sections=False,
+        mixed_parent_sections=False, abs_later=False,
     )
 
     def __init__(self, **kw):
@@ -133,8 +133,13 @@ def gen_workflow(rng: random.Random, feat: Features) -> dict:
         for _ in range(narrows):
             rhs = rng.choice(members)
             ri = names.index(rhs)
+            abs_pt = initial
+            if feat['abs_later'] and pts and rng.random() < 0.5:
+                # absolute trigger on a later point of this section
+                # (foo[3]): its first dependants lie before it
+                abs_pt = rng.choice(pts[:3])
             lhs = _gen_expr(rng, feat, names, tasks, members, ri, step,
-                            use_future, depth=0, initial=initial)
+                            use_future, depth=0, initial=abs_pt)
             if lhs is None:
                 continue
             sec['arrows'].append({'lhs': lhs, 'rhs': [rhs]})
